@@ -1,10 +1,12 @@
 use crate::report::Report;
 use crate::Ctx;
 
+pub mod c01;
 pub mod c20;
 
 pub fn run(prop: &str, ctx: &mut Ctx) -> Option<Report> {
     match prop {
+        "C01" => Some(c01::run(ctx)),
         "C20" => Some(c20::run(ctx)),
         _ => None,
     }
@@ -24,5 +26,42 @@ pub fn guarded<T>(f: impl FnOnce() -> T) -> Result<T, String> {
             };
             Err(msg)
         }
+    }
+}
+
+/// Run `n` independent cases on `threads` worker threads; each worker has its own model driver
+/// and its own report, merged at the end (deterministic per case: everything derives from the index).
+pub fn par_cases(
+    ctx: &Ctx,
+    rep: &mut Report,
+    n: u64,
+    threads: usize,
+    f: impl Fn(&mut Option<crate::model::Model>, &mut Report, u64) + Sync,
+) {
+    let next = std::sync::atomic::AtomicU64::new(0);
+    let parts: Vec<Report> = std::thread::scope(|sc| {
+        let hs: Vec<_> = (0..threads.max(1))
+            .map(|_| {
+                sc.spawn(|| {
+                    let mut m = ctx.spawn_model();
+                    let mut r = Report::new(&rep.property, "");
+                    loop {
+                        let i = next.fetch_add(1, std::sync::atomic::Ordering::SeqCst);
+                        if i >= n {
+                            break;
+                        }
+                        f(&mut m, &mut r, i);
+                    }
+                    if let Some(m) = &m {
+                        r.model_requests = m.requests;
+                    }
+                    r
+                })
+            })
+            .collect();
+        hs.into_iter().map(|h| h.join().expect("worker thread")).collect()
+    });
+    for p in parts {
+        rep.merge(p);
     }
 }
